@@ -963,7 +963,8 @@ func init() {
 			}
 			tmpl := 0
 			if pi%3 == 2 {
-				tmpl = 1 + (pi/3)%pgen.NTemplates
+				// the first skeleton is the one with preflight calls (kind 3)
+				tmpl = 1 + (pi/3+3)%pgen.NTemplates
 			}
 			fp := makeFaultProgram(c, c.Seed*11+int64(pi)*15485863, cfg, []string{"rolling", "disable", "strict"}[pi%3],
 				func(s *pgen.Spec) {
@@ -1011,6 +1012,19 @@ func init() {
 					}
 					jobs = append(jobs, job{fp, idx, fs})
 					idx++
+				}
+				// failing preflight calls: everything else in the pipeline,
+				// nested at any depth, depends on them
+				k := 0
+				for _, j := range fp.jobs {
+					if strings.Contains(j, "/PRE_") {
+						for r := 0; r < 2; r++ {
+							fs := failSpec{Job: j, Fail: kindFor(fp, j, failKinds[(k+pi)%len(failKinds)], k), Repeated: k%3 != 0}
+							jobs = append(jobs, job{fp, idx, fs})
+							idx++
+							k++
+						}
+					}
 				}
 				// failures only a Python stage can have (exception, martian.exit,
 				// martian.throw, sys.exit, os._exit, killed interpreter)
